@@ -182,20 +182,34 @@ int main(int argc, char** argv) {
             auto add = [&](const std::string& kind, const std::string& text, int pace = sess::P_NOW, int arg = 0) {
                 sess::Cmd x; x.kind = kind; x.text = text; x.pace = pace; x.paceArg = arg; s.cmds.push_back(x); return &s.cmds.back();
             };
-            add("setoption", "setoption name Threads value " + std::to_string(c.range(6, 8)));
+            // a helper has up to four helper children from Threads = 21 on, one child with 6..9 threads; the more children
+            // acknowledge to the same parent, the more often that parent polls them once more after its last message
+            const int big = c.of(std::vector<int>{16, 12, 16, 8, 7, 6}); // (small generator sizes pick the front of the list)
+            add("setoption", "setoption name Threads value " + std::to_string(big));
             const std::string start = gen::seedFens()[0];
-            int n = c.range(3, 7);
+            int n = 10 - c.range(0, 6);
+            bool running = false;       // the previous search may still be running when the next command is sent
+            std::string restore;        // non-empty: the command that brings the full helper tree back
             for (int i = 0; i < n; i++) {
-                add("position", "position startpos", i ? sess::P_BESTMOVE : sess::P_NOW);
-                int k = c.pick(3);
-                sess::Cmd* g = add("go", k == 0 ? "go depth " + std::to_string(c.range(1, 3)) : k == 1 ? "go nodes " + std::to_string(c.range(100, 4000)) : "go movetime " + std::to_string(c.range(5, 60)));
-                g->goFen = start; g->goHasLimit = true;
-                int w = c.pick(6);
-                if (w == 0) add("setoption", "setoption name Threads value " + std::to_string(c.range(1, 8)), sess::P_BESTMOVE);
-                else if (w == 1) add("setoption", "setoption name Threads value " + std::to_string(c.range(6, 8)), sess::P_BESTMOVE);
-                else if (w == 2) add("setoption", "setoption name Strength value " + std::to_string(c.flip() ? 1000 : c.range(0, 999)), sess::P_BESTMOVE);
-                else if (w == 3) add("setoption", std::string("setoption name UCI_LimitStrength value ") + (c.flip() ? "true" : "false"), sess::P_BESTMOVE);
-                else if (w == 4) add("isready", "isready", c.flip() ? sess::P_NOW : sess::P_BESTMOVE);
+                // half of the time the next search is requested while the previous one is still running: the engine stops it,
+                // applies the pending option and rebuilds the worker tree right after the helpers have acknowledged the stop
+                auto pace = [&]() { return (running && c.flip()) ? sess::P_NOW : sess::P_BESTMOVE; };
+                add("position", "position startpos", i ? pace() : sess::P_NOW);
+                int k = c.pick(4);
+                sess::Cmd* g = add("go", k == 0 ? "go depth " + std::to_string(c.range(1, 3)) : k == 1 ? "go nodes " + std::to_string(c.range(100, 4000))
+                                       : k == 2 ? "go movetime " + std::to_string(c.range(5, 200)) : "go infinite");
+                g->goFen = start; g->goHasLimit = k != 3; g->goInfinite = k == 3;
+                running = true;
+                int pc = k == 3 ? sess::P_NOW : pace();
+                if (c.chance(1, 5)) { if (c.flip()) add("isready", "isready", c.flip() ? sess::P_NOW : sess::P_BESTMOVE); }
+                else if (restore.empty()) {     // the tree is up: shrink it (four ways to get fewer search threads)
+                    int w = c.pick(4);
+                    if (w == 0) { add("setoption", "setoption name Threads value " + std::to_string(c.range(1, 5)), pc); restore = "setoption name Threads value " + std::to_string(c.flip() ? big : c.range(6, 8)); }
+                    else if (w == 1) { add("setoption", "setoption name Strength value " + std::to_string(c.range(0, 999)), pc); restore = "setoption name Strength value 1000"; }
+                    else if (w == 2) { add("setoption", "setoption name UCI_LimitStrength value true", pc); restore = "setoption name UCI_LimitStrength value false"; }
+                    else { add("setoption", "setoption name MaxNPS value " + std::to_string(c.range(50000, 1000000)), pc); restore = "setoption name MaxNPS value 0"; }
+                } else { add("setoption", restore, pc); restore.clear(); }
+                if (k == 3 && (i + 1 == n || c.flip())) add("stop", "stop", sess::P_DEPTH, c.range(1, 4));
             }
             add("quit", "quit", c.chance(1, 3) ? sess::P_NOW : sess::P_BESTMOVE);
             return s;
